@@ -37,7 +37,7 @@ _LABELS = {
         ("Zr = Crop.Zmax", 0, "rd.new_at_max"), ("Zr = Zini", 0, "rd.new_before_t0"),
         ("Zr = Zini + (Crop.Zmax - Zini) * np.power(X, 1 / Crop.fshape_r)", 0, "rd.new_curve"),
         ("Zr = Crop.Zmin", 0, "rd.new_clamped_zmin"),
-        ("layeri = 1", 0, "rd.walk_entered"),
+        ("Zr = _restricted_depth(Zr)", 0, "rd.walk_entered"), ("ZrOld = _restricted_depth(ZrOld)", 0, "rd.walk_yesterday_too"),
         ("layeri = layeri + 1", 0, "rd.skip_shallow_layer"), ("layeri = layeri + 1", 1, "rd.walk_next_layer"),
         ("dZr = dZr * NewCond_TrRatio", 0, "rd.stomatal_linear"), ("dZr = dZr * fAdj", 0, "rd.stomatal_exp"),
         ("pZexp = Crop.p_up[1] + ((1 - Crop.p_up[1]) / 2)", 0, "rd.front_checked"),
@@ -97,7 +97,8 @@ def call(fn, *a):
         return loc
 
     def tr(frame, ev, arg):
-        return loc if frame.f_code is code else None
+        # the function's own frame and the frames of helpers nested in it (same file, inside its line range)
+        return loc if frame.f_code.co_filename == code.co_filename and frame.f_code.co_firstlineno >= code.co_firstlineno else None
 
     sys.settrace(tr)
     try:
